@@ -1,6 +1,7 @@
 package checks
 
 import (
+	"math/big"
 	"bytes"
 	"fmt"
 
@@ -8,6 +9,7 @@ import (
 
 	"verif/harness/internal/core"
 	"verif/harness/internal/ref"
+	"verif/harness/internal/svc"
 )
 
 // C02 — exactly the well-formed frames are accepted; accepted frames decode to the standard's fields.
@@ -600,6 +602,23 @@ func c02Worker(c *core.Collector, x *Ctx) {
 						}
 						phones = append(phones, b2)
 					}
+				}
+			}
+		}
+		// decimal phones around the limits of 32- and 64-bit integers (a renderer that goes through an integer wraps there)
+		for _, base := range []string{"2147483647", "2147483648", "4294967295", "4294967296", "9223372036854775807", "9223372036854775808", "18446744073709551615", "18446744073709551616", "99999999999999999999", "10000000000000000000"} {
+			for d := -3; d <= 90; d++ {
+				if d > 3 && d%17 != 0 && d != 83 && d != 84 {
+					continue
+				}
+				n, _ := new(big.Int).SetString(base, 10)
+				n.Add(n, big.NewInt(int64(d)))
+				ds := n.String()
+				for _, w := range []int{6, 10} {
+					if len(ds) > 2*w || n.Sign() < 0 {
+						continue
+					}
+					phones = append(phones, svc.PhoneBCD(ds, w))
 				}
 			}
 		}
